@@ -69,14 +69,41 @@ def repo_head():
         return 'unknown'
 
 
-def run_one_shard(prop, tier, seed, shard, nshards, timeout, outdir):
-    out = os.path.join(outdir, 'shard%03d.json' % shard)
+# Interpreter configurations a user may legitimately run the library under.
+# The properties do not mention them, so they must hold under each: a slice of
+# every workload is repeated in a process configured that way, judged by the
+# same oracles.  'optimised': python -O / PYTHONOPTIMIZE=1 (assert statements
+# and `if __debug__` blocks are compiled away, in the library AND -- which is
+# why no verdict of this harness is an assert statement -- in vmon).
+# 'warnings-as-errors': the filter `error` (python -W error, pytest
+# filterwarnings=error) is in force around every observed call; a warning that
+# escapes to the caller is visible and the call is repeated without the
+# filter, one that is swallowed inside the library and changes the answer is
+# caught by the ordinary oracle.
+VARIANTS = [('optimised', {'PYTHONOPTIMIZE': '1'}),
+            ('warnings-as-errors', {'VMON_WARNINGS': 'error'})]
+
+
+def variant_env(name):
+    for n, env in VARIANTS:
+        if n == name:
+            return env
+    return {}
+
+
+def run_one_shard(prop, tier, seed, shard, nshards, timeout, outdir,
+                  variant=None):
+    out = os.path.join(outdir, 'shard%03d%s.json' % (shard, variant or ''))
     cmd = [sys.executable, '-X', 'faulthandler', '-W', 'ignore', '-m',
            'vmon.shard', prop, tier, str(seed), str(shard), str(nshards), out]
+    env = dict(os.environ)
+    env.pop('PYTHONOPTIMIZE', None)
+    env.pop('VMON_WARNINGS', None)
+    env.update(variant_env(variant))
     t0 = time.time()
     try:
         p = subprocess.run(cmd, cwd=ROOT, capture_output=True, text=True,
-                           timeout=timeout, errors='replace')
+                           timeout=timeout, errors='replace', env=env)
         rc, err = p.returncode, p.stderr[-4000:]
     except subprocess.TimeoutExpired as exc:
         rc = 'timeout'
@@ -90,8 +117,11 @@ def run_one_shard(prop, tier, seed, shard, nshards, timeout, outdir):
                 res = json.load(f)
         except Exception:
             res = None
+    if res and variant:
+        for v in res.get('violations', []):
+            v['variant'] = variant
     return {'shard': shard, 'rc': rc, 'stderr': err, 'result': res,
-            'wall': time.time() - t0}
+            'wall': time.time() - t0, 'variant': variant}
 
 
 def merge(results):
@@ -156,7 +186,13 @@ def main(argv=None):
     if args.replay:
         cmd = [sys.executable, '-X', 'faulthandler', '-W', 'ignore', '-m',
                'vmon.shard', prop, 'replay', args.replay]
-        return subprocess.run(cmd, cwd=ROOT).returncode
+        env = dict(os.environ)
+        try:
+            with open(args.replay) as f:
+                env.update(variant_env(json.load(f).get('variant')))
+        except Exception:
+            pass
+        return subprocess.run(cmd, cwd=ROOT, env=env).returncode
 
     mod = importlib.import_module('vmon.props.%s' % prop.lower())
     conf = getattr(mod, 'CONFIG', {})
@@ -171,6 +207,20 @@ def main(argv=None):
             futs = [ex.submit(run_one_shard, prop, args.tier, seed, i,
                               nshards, timeout, outdir)
                     for i in range(nshards)]
+            # configuration variants: a rotating slice of the same workload
+            nvar = conf.get('variant_shards', {}).get(
+                args.tier, 2 if args.tier == 'quick' else 4)
+            variant_plan = {}
+            for vi, (vname, _) in enumerate(VARIANTS):
+                if vname in conf.get('no_variants', ()):
+                    continue
+                idx = sorted(set((seed * 5 + vi * 3 + 1 + j * (
+                    nshards // max(1, nvar))) % nshards
+                    for j in range(min(nvar, nshards))))
+                variant_plan[vname] = idx
+                futs += [ex.submit(run_one_shard, prop, args.tier, seed, i,
+                                   nshards, timeout, outdir, vname)
+                         for i in idx]
             results = [f.result() for f in futs]
     finally:
         if not args.keep:
@@ -178,13 +228,19 @@ def main(argv=None):
             shutil.rmtree(outdir, ignore_errors=True)
 
     m = merge(results)
+    m['notes']['configuration_variants'] = dict(
+        (k, {'workload_shards_repeated': v,
+             'shards_ok': sum(1 for r in results if r.get('variant') == k
+                              and r['result'] is not None and r['rc'] == 0)})
+        for k, v in variant_plan.items())
     inconclusive = []
     dead = [r for r in results if r['result'] is None or r['rc'] != 0]
     for r in dead:
         tail = [ln for ln in (r['stderr'] or '').strip().split('\n')
                 if ln.strip() and not set(ln.strip()) <= set('^~ ')]
-        inconclusive.append('shard %d ended rc=%s: %s' % (
-            r['shard'], r['rc'], ' / '.join(tail[-3:])[-400:]))
+        inconclusive.append('shard %d%s ended rc=%s: %s' % (
+            r['shard'], ' [%s]' % r['variant'] if r.get('variant') else '',
+            r['rc'], ' / '.join(tail[-3:])[-400:]))
 
     # ---- classify discrepancies ----------------------------------------
     known = [k for k in load_known()
@@ -244,6 +300,7 @@ def main(argv=None):
             json.dump({'property': prop, 'tier': args.tier, 'seed': seed,
                        'sig': v['sig'], 'case': v['case'],
                        'detail': v['detail'],
+                       'variant': v.get('variant'),
                        'occurrences': m['sig_counts'].get(v['sig'], 1)},
                       f, indent=1, default=repr)
         lines.append('VIOLATION property=%s replay=%s' % (prop, path))
